@@ -1,6 +1,7 @@
 import JoblibModel.Store
 import JoblibModel.StoreIO
 import JoblibModel.IOUtil
+import JoblibModel.StoreObjects
 /-! Driver for C11 (model `JoblibModel.Store`).
 
 Request: `par ORDER FIRSTLINE SRC0 SRC1 | PRE | PRE … || THREAD | THREAD … || SCHED`
@@ -8,8 +9,13 @@ Request: `par ORDER FIRSTLINE SRC0 SRC1 | PRE | PRE … || THREAD | THREAD … |
 * `THREAD` — the concurrent users (same syntax, no `kill`);
 * `SCHED` — `t.t.t…`: the thread that makes the next system call, one entry per call (`-` = empty).
 Reply: `t:op;t:op;… => STATE | STATE | …` with `STATE` = `ok v<ver>.<arg>` | `ok done` | `raise <Class>` |
-`running@<next op>`; or `bad-op` (malformed, or the schedule names a thread that has finished). -/
-open JoblibModel JoblibModel.Store JoblibModel.StoreIO JoblibModel.IOUtil
+`running@<next op>`; or `bad-op` (malformed, or the schedule names a thread that has finished).
+
+Request: `objs ORDER FIRSTLINE SRC0 SRC1 | STEP | STEP …` — a history of OBJECTS (model `JoblibModel.StoreObjects`), every
+step run to completion: `new:p=0,me=0` | `call:p=0,g=0,me=0,a=3` | `clear:p=0,me=0` | `fclear:p=0,g=0,me=0` |
+`reduce:p=0,me=0,victims=5.4.3` | `iclear:p=0,me=0,a=3` (`p` process, `g` function object, `me` the object).
+Reply: `R | R | …` with `R` = `ok v<ver>.<arg> exec=<0|1>` | `ok done` | `raise <Class>`. -/
+open JoblibModel JoblibModel.Store JoblibModel.StoreIO JoblibModel.IOUtil JoblibModel.StoreObjects
 
 def runPre (env : Env) : List String → FS → Option FS
   | [], fs => some fs
@@ -29,7 +35,52 @@ def parseEnv (hd : String) : Option Env :=
       pure ⟨o, f, [b0, b1]⟩
   | _ => none
 
+def parseStep (env : Env) (s : String) : Option Step :=
+  match s.splitOn ":" with
+  | [kind, args] => do
+    let l ← parseKVs args
+    let me ← kvNat l "me"
+    let p ← kvNat l "p"
+    let c : Cfg := { codec := mkCodec false env.firstLine env.srcs, me, ver := 0, rank := rankOf env.order }
+    if kind = "new" then pure (.new p c)
+    else if kind = "call" then do
+      let g ← kvNat l "g"
+      let a ← kvNat l "a"
+      pure (.call p g c a)
+    else if kind = "clear" then pure (.clear p c)
+    else if kind = "fclear" then do
+      let g ← kvNat l "g"
+      pure (.fclear p g c)
+    else if kind = "reduce" then do
+      let v ← (kv l "victims").bind parseNats
+      pure (.reduce p c v)
+    else if kind = "iclear" then do
+      let a ← kvNat l "a"
+      pure (.iclear p c a)
+    else none
+  | _ => none
+
+def reportToString : Report → String
+  | .value v e => s!"ok {valToString v} exec={if e then 1 else 0}"
+  | .done => "ok done"
+  | .raised e => "raise " ++ errToString e
+
+def handleObjs (line : String) : String :=
+  match line.trimAscii.toString.splitOn " | " with
+  | hd :: steps =>
+    match tokens hd with
+    | "objs" :: rest =>
+      match parseEnv (" ".intercalate ("par" :: rest)) with
+      | some env =>
+        match steps.mapM (fun s => parseStep env s.trimAscii.toString) with
+        | some sts => " | ".intercalate ((history [] FS.empty sts).map reportToString)
+        | none => "bad-op"
+      | none => "bad-op"
+    | _ => "bad-op"
+  | [] => "bad-op"
+
 def handle (line : String) : String :=
+  if line.trimAscii.toString.startsWith "objs " then handleObjs line else
   match line.trimAscii.toString.splitOn " || " with
   | [a, b, c] =>
     match a.splitOn " | " with
